@@ -39,6 +39,13 @@ let hex l =
 let ck_add ck l = List.fold_left (fun ck c -> (ck * 31 + int_of_n c + 1) land 0xFFFFFFFF) ck l
 let le32 v = [v land 255; (v lsr 8) land 255; (v lsr 16) land 255; (v lsr 24) land 255]
 
+(* back ends compiled into the library under test: C05_AVAIL="1,2,4,5,6" (measured by `h_reader --comps`) *)
+let avail_ids =
+  match Sys.getenv_opt "C05_AVAIL" with
+  | Some s when s <> "" -> List.filter_map int_of_string_opt (String.split_on_char ',' s)
+  | _ -> [1; 2; 3; 4; 5; 6]
+let avail id = List.mem (int_of_n id) avail_ids
+
 let unk = ref false
 let codec id inp cap =
   if int_of_n id = 1 then begin
@@ -124,6 +131,7 @@ let print_item = function
         List.iter (fun (k, v) -> Printf.printf " %s=%s" (hex (cstr k)) (hex v)) kvs;
         print_newline ()) r
   | IMeta r -> ()
+  | IComp r -> pres "comp" (fun () -> ()) r
 
 let depth = nat_of_int 100000 and efuel = nat_of_int 400000 and fuel = nat_of_int 400000
 
@@ -135,8 +143,8 @@ let run_one path mode args =
   let img = bytes_of_string s in
   unk := false;
   (match mode with
-   | "all" -> List.iter print_item (run_reader codec depth efuel fuel img QAll)
-   | "xattr" -> List.iter print_item (run_reader codec depth efuel fuel img QXattr)
+   | "all" -> List.iter print_item (run_reader_build avail codec depth efuel fuel img QAll)
+   | "xattr" -> List.iter print_item (run_reader_build avail codec depth efuel fuel img QXattr)
    | "meta" ->
      let ops = List.map (fun a ->
          let body = String.sub a 1 (String.length a - 1) in
@@ -145,7 +153,7 @@ let run_one path mode args =
             | [b; o] -> MSeek (n_of_int (int_of_string b), n_of_int (int_of_string o))
             | _ -> MSeek (N0, N0))
          else MRead (n_of_int (int_of_string body))) args in
-     let items = run_reader codec depth efuel fuel img (QMeta ops) in
+     let items = run_reader_build avail codec depth efuel fuel img (QMeta ops) in
      let rec go items ops =
        match items, ops with
        | (ISuper _ as i) :: r, _ -> print_item i; go r ops
